@@ -116,12 +116,14 @@ PROPS["C10"] = {
         Job("soymsg", "H_id", "0..4,0..2", workers=8, qtimeout=3000, allow_inconclusive=True),
         Job("soymsg", "H_idMeaning", "0..7,0..2", workers=8, qtimeout=3000, allow_inconclusive=True),
         Job("soymsg", "H_names", "0..13,-1..3", workers=16),
+        Job(".", "H_compileRace", "0,0", workers=2, note="ids of two concurrent compilations"),
+        Job(".", "H_compileRace", "0,7", workers=2, note="ids of two concurrent compilations"),
         Job("soymsg", "H_baseName", "1..4", workers=16, maxfan=16),
         Job("soyhtml", "H_msgPositions", "0..13", workers=8),
         Job("soymsg", "H_fp", "26..40", tier="thorough", workers=8, qtimeout=3000, allow_inconclusive=True, note="3 blocks"),
         Job("soymsg", "H_id", "5..13,0..3", tier="thorough", workers=8, qtimeout=3000, allow_inconclusive=True, note="longer text"),
     ],
-    "bounds_quick": "fingerprint vs the official algorithm for every byte string of each length 0..25 (0, 1 and 2 twelve-byte blocks, every tail length); calcID with symbolic text (<= 4 bytes), description (2 bytes, two independent copies) and meaning (<= 2 bytes); the id of 8 structured messages (placeholders, html tags, plural) with a symbolic meaning (<= 2 bytes) and description against the official id of their placeholder string; base-name derivation (toUpperUnderscore and genBasePlaceholderName) for every identifier of <= 4 characters over {a,b,A,B,1,2,_} against a regexp-free reference; the id/placeholder pass (parsepasses.ProcessMessages) on a message placed in 14 containers (if/elseif/else, switch cases, foreach/ifempty, for, let content, call param content - also nested -, log) against the same message at top level; placeholder naming for a dictionary of 14 messages (incl. one expression under different directives / directive arguments / access styles and link tags differing in an attribute) under an arbitrary iteration order of each of the 4 map loops of setPlaceholderNames, one loop at a time",
+    "bounds_quick": "fingerprint vs the official algorithm for every byte string of each length 0..25 (0, 1 and 2 twelve-byte blocks, every tail length); calcID with symbolic text (<= 4 bytes), description (2 bytes, two independent copies) and meaning (<= 2 bytes); the id of 8 structured messages (placeholders, html tags, plural) with a symbolic meaning (<= 2 bytes) and description against the official id of their placeholder string; base-name derivation (toUpperUnderscore and genBasePlaceholderName) for every identifier of <= 4 characters over {a,b,A,B,1,2,_} against a regexp-free reference; the id/placeholder pass (parsepasses.ProcessMessages) on a message placed in 14 containers (if/elseif/else, switch cases, foreach/ifempty, for, let content, call param content - also nested -, log) against the same message at top level; message ids and placeholder names computed by two compilations running at once (happens-before check of every heap access, both run-queue disciplines) equal those computed alone; placeholder naming for a dictionary of 14 messages (incl. one expression under different directives / directive arguments / access styles and link tags differing in an attribute) under an arbitrary iteration order of each of the 4 map loops of setPlaceholderNames, one loop at a time",
     "bounds_thorough": "fingerprint lengths up to 40; text up to 13 bytes, meaning up to 3",
     "outside": "strings longer than the bound; collision-freeness (a 63-bit id cannot be injective); the branch hi==0 && lo in {0,1} is a hash pre-image question: explored under a 3 s query timeout and counted as inconclusive when the solver gives up; several map loops permuted at once (only one loop's order influences the result, shown per loop); across-process stability follows from calcID reading nothing but the node",
     "assumptions": ["refFingerprint/refID/refNames (harness) are transliterations of the official SoyMsgIdComputer and MsgNode.genSubstUnitInfo; refID is validated on every run against the official ids pinned in soy's tests"],
@@ -203,9 +205,12 @@ PROPS["C06"] = {
 
 # ---------------------------------------------------------------- C08
 PROPS["C08"] = {
+    # a synchronised write to package-level state (mutex / Once / sync.Map / atomic.Value) may be a
+    # benign cache: it is not a verdict by itself, the output oracles decide
+    "viol_filter": r"^(?!synchronised .* to frozen global)",
     "jobs": [
         Job("soyhtml", "H_pure", "0..2,0..1,false,0..5", workers=8),
-        Job("soyhtml", "H_pure", "0..2,0..1,true,0..5", workers=8),
+        Job("soyhtml", "H_pure", "0..2,0..1,true,0..7", workers=8),
         Job("soyhtml", "H_pure", "3,0,false,0..6", workers=8, note="through a translating catalogue"),
         Job(".", "H_renderAfterJS", "0..1,false", workers=8, note="JS generation between renders"),
         Job(".", "H_renderAfterJS", "0..1,true", workers=8, note="JS generation between renders"),
@@ -220,16 +225,20 @@ PROPS["C08"] = {
 
 # ---------------------------------------------------------------- C09
 PROPS["C09"] = {
-    "viol_filter": r"^(?!C13:)",
+    "viol_filter": r"^(?!C13:|synchronised .* to frozen global)",
     "jobs": [
         Job("soyhtml", "H_pure", "0..2,0..1,false,0..5", workers=8),
-        Job("soyhtml", "H_pure", "0..2,0..1,true,0..5", workers=8),
+        Job("soyhtml", "H_pure", "0..2,0..1,true,0..7", workers=8),
         Job("soyhtml", "H_pure", "3,0,false,0..6", workers=8, note="through a translating catalogue"),
         Job(".", "H_renderAfterJS", "0..1,false", workers=8, note="JS generation between renders"),
         Job(".", "H_renderAfterJS", "0..1,true", workers=8, note="JS generation between renders"),
         Job("soyjs", "H_jsPure", "0..2,false", workers=2),
         Job("soyjs", "H_jsPure", "0..2,true", workers=2),
         Job("parse", "H_parseRace", "0..8", workers=8, note="happens-before check of scanner/parser memory accesses"),
+        Job(".", "H_compileRace", "0,7", workers=2, note="two concurrent compilations"),
+        Job(".", "H_compileRace", "7,0", workers=2, note="two concurrent compilations"),
+        Job(".", "H_compileRace", "0,0", workers=2, note="two concurrent compilations"),
+        Job(".", "H_compileRace", "1,14", workers=2, note="two concurrent compilations"),
     ],
     "bounds": "as C08 for Tofu rendering (3 template sets, symbolic data, with/without obligatory directive), plus soyjs.Write of every file of a two-file bundle under both formatters; a happens-before (vector clock) check of every heap access of the scanner goroutine and the parser during 9 parses (valid file, lexical and syntax errors, nested expression parser, parse.Expr with and without trailing input); in every explored render/generation all memory reachable from the compiled registry, the caller's data and every package-level variable of the soy packages is frozen",
     "outside": "the interleavings themselves (no schedule is explored and the race detector is not a solver): the property is decided through the sufficient condition 'concurrent calls only read shared memory'; the documented-unsafe Bundle.recompiler; math/rand's internal lock; inside one parse only the accesses of the executions explored are checked for happens-before order (a confirmed finding is re-run natively under the Go race detector)",
@@ -248,8 +257,8 @@ PROPS["C13"] = {
         Job("soyjs", "H_jsAfterFailure", "0..2,0..2,true", workers=4, note="generation after a failed generation"),
         Job("soyjs", "H_jsOrder", "0..2,-1..3,false", workers=8, timeout=300),
         Job("soyjs", "H_jsOrder", "0..2,-1..3,true", workers=8, timeout=300),
-        Job(".", "H_bundle", "0..13,0", workers=8, timeout=400, per_map_site=r"^(ast|data|parse|parsepasses|soyhtml|soyjs|soymsg|template|bundle|globals)"),
-        Job(".", "H_bundle", "0..13,1..5", workers=8, timeout=400, note="file insertion orders"),
+        Job(".", "H_bundle", "0..14,0", workers=8, timeout=400, per_map_site=r"^(ast|data|parse|parsepasses|soyhtml|soyjs|soymsg|template|bundle|globals)"),
+        Job(".", "H_bundle", "0..14,1..5", workers=8, timeout=400, note="file insertion orders"),
     ],
     "bounds": "real soy.NewBundle().AddTemplateString(..).AddGlobalsMap(..).Compile() + Tofu rendering + soyjs.Write (ES5 and ES6) for 8 bundles, each compiled twice from the same Bundle object and a third time through CompileToTofu (valid with messages/globals/map literals/cross-file calls; rejected by the data-ref checker, the parser, the globals pass; two independent errors; duplicate template name; header params without soydoc); every map-range site reached in the soy packages is given an arbitrary iteration order, one site at a time (all permutations up to 5 keys; for larger maps an arbitrary key first and an arbitrary key last); all 6 insertion orders of up to 3 files",
     "outside": "two or more loops permuted simultaneously (order dependence that needs a particular combination); bundles outside the dictionary; file-system loading and the watcher",
